@@ -76,7 +76,71 @@ func vfC09Oracle(in *vfGWInst, evFull string, pre, post *vfSnap) {
 				}
 			}
 		}
-		if f[0] == "pub" {
+		// ---- the validation-overload gater suppresses payload only: when its coin throttled this RPC,
+		// payload is dropped and every control element has its usual effect
+		throttled := false
+		for _, cp := range g.lastPts {
+			if cp.Kind == "coin" {
+				in.count("gater_coin_consulted")
+				if cp.Got == 1 {
+					throttled = true
+				}
+			}
+		}
+		if throttled {
+			in.count("rpc_throttled_by_gater")
+			switch f[0] {
+			case "pub":
+				for _, d := range g.deliv {
+					if d.id == f[2] {
+						in.bad("c09:gater-delivered", "payload %s of %s was delivered although the gater throttled the RPC", f[2], x)
+					}
+				}
+				for _, name := range g.order {
+					for _, r := range g.sentTo(name) {
+						if len(r.GetPublish()) > 0 {
+							in.bad("c09:gater-forwarded", "payload %s of %s was forwarded to %s although the gater throttled the RPC", f[2], x, name)
+						}
+					}
+				}
+			case "prune":
+				if pre.Mesh[f[2]][x] && post.Mesh[f[2]][x] {
+					in.bad("c09:gater-suppressed-control", "PRUNE from %s was not processed because the gater throttled the RPC", x)
+				}
+			case "graft":
+				t := f[2]
+				_, joined := pre.Mesh[t]
+				_, backedOff := pre.Backoff[t][x]
+				if joined && !pre.Mesh[t][x] && !backedOff && sc >= 0 && !pre.Direct[x] && len(pre.Mesh[t]) < gs.params.Dhi && pre.Topics[t][x] {
+					in.count("gater_throttled_graft_judged")
+					if !post.Mesh[t][x] {
+						in.bad("c09:gater-suppressed-control", "GRAFT from %s was not processed because the gater throttled the RPC", x)
+					}
+				}
+			case "ihave":
+				if !mon.seen[f[3]] && pre.PeerHave[x] == 0 && pre.IAsked[x] == 0 && sc >= gs.gossipThreshold {
+					in.count("gater_throttled_ihave_judged")
+					n := 0
+					for _, r := range g.sentTo(x) {
+						n += len(r.GetControl().GetIwant())
+					}
+					if n == 0 && pre.Queues[x] && !g.gated[x] {
+						in.bad("c09:gater-suppressed-control", "IHAVE from %s was not answered because the gater throttled the RPC", x)
+					}
+				}
+			case "idw":
+				fresh := false // the entry is (re)written with the full TTL
+				for _, ttl := range post.Unwanted[x] {
+					if ttl == gs.params.IDontWantMessageTTL {
+						fresh = true
+					}
+				}
+				if !fresh && pre.PeerDW[x] == 0 {
+					in.bad("c09:gater-suppressed-control", "IDONTWANT from %s was not recorded because the gater throttled the RPC", x)
+				}
+			}
+		}
+		if f[0] == "pub" && !throttled {
 			mon.seen[f[2]] = true
 		}
 		switch f[0] {
@@ -252,6 +316,15 @@ func vfC09Scenarios(thorough bool) []*vfGWScenario {
 	mk("px", true, "d2", joined, []string{"score:a:1.9", "score:a:2", "score:a:2.5", "score:c:3", "prunepx:a:t", "prunepx:c:t", "prunepx:a:u", "leave:t", "join:t", "hb"})
 	mk("fanout-thr", false, "d2", prefix, []string{"score:a:-2.5", "score:a:-2", "score:a:-0.5", "score:c:-2.5", "score:d:-3", "score:d:0", "lpub:t:p1", "lpub:t:p2", "lpub:t:p3", "hb", "adv:3500", "join:t", "leave:t"})
 	mk("px-over", true, "d2", append(append([]string{}, joined...), "graft:a:t", "graft:c:t", "graft:d:t"), []string{"hb", "score:a:-0.5", "score:c:1", "score:d:-0.5", "leave:t", "join:t", "graft:a:t"})
+	// validation-overload gater: m1 parks in the only validation slot, m2 is throttled (the gater's circuit
+	// breaker closes), m1 is then rejected (a's goodput drops): from here the gater consults its coin for a's RPCs
+	gmsgs := map[string]vfMsgSpec{"m1": {Topic: "t", Author: "x", Seq: 1, Size: 32}, "m2": {Topic: "t", Author: "x", Seq: 2, Size: 32},
+		"m3": {Topic: "t", Author: "x", Seq: 3, Size: 32}, "m4": {Topic: "t", Author: "x", Seq: 4, Size: 32}}
+	out = append(out, &vfGWScenario{Name: "gater", Cfg: vfGWCfg{Router: "gossip", Peers: peers[:1:1], Topics: []string{"t"}, Params: "d2", Scoring: true, Gater: true, ValThrottle: 1, SeenTTL: 3600,
+		Validators: []vfValCfg{{Name: "V", Topic: "t", Gated: true, GateOnly: []string{"m1"}}},
+		Prefix:     []string{"conn:a", "join:t", "sub:a:t", "pub:a:m1", "pub:a:m2", "vrel:V:m1:R"}},
+		Alphabet: []string{"pub:a:m3", "graft:a:t", "prune:a:t", "ihave:a:t:m4", "idw:a:m4", "hb"}, Msgs: gmsgs, Depth: d,
+		DevKinds: []string{"coin"}, DevEvents: []string{"pub", "graft", "prune", "ihave", "idw"}, DevMax: 4})
 	return out
 }
 
